@@ -216,7 +216,7 @@ condition that holds (unclassifiable text is counted, not failed); plus the comp
     }],
     randoms: &[RandomDef {
         name: "decorated",
-        cases: |t: Tier| t.pick(10_000, 1_000_000),
+        cases: |t: Tier| t.pick(200_000, 4_000_000),
         tape_len: 600,
         exec: Some(exec_random),
     }],
